@@ -76,6 +76,15 @@ Theorem C38_inflight_exact : forall evs s, run sys_init evs = SOk s ->
 Proof. exact inflight_exact. Qed.
 Print Assumptions C38_inflight_exact.
 
+(** recycled Responses: once Do has returned for a call -- with its result, or with ctx.Err() after
+    cancelCall + draining the channel -- the result channel of its Response is empty and nothing can be delivered
+    to it any more, so a Response taken from the pool never carries another call's result.
+    ([rrun]: the events of [run] with doWait's two select cases as separate events.) *)
+Theorem C38_pool_clean : forall evs r, rrun rsys_init evs = Some r ->
+  forall q, In q (r_ret r) -> ~ In q (r_chan r) /\ ~ In q (keys (cs_calls (cl (r_sys r)))).
+Proof. exact pool_clean. Qed.
+Print Assumptions C38_pool_clean.
+
 (** soundness of the extracted monitor: a history accepted by [accepts] is a run of the model in which every
     observed answer of a call is that call's completion in the model, carries the body id the call was started
     with (in the history and in the model run), and every observed call returned. *)
@@ -134,6 +143,16 @@ Proof. vm_compute. reflexivity. Qed.
 Example C38_ex_monitor_rejects_lost :
   accepts [OCall 7 1 false false; OCall 8 2 false false; OSrv 7 1; ODone 7 KOk 1] = false.
 Proof. vm_compute. reflexivity. Qed.
+
+(* the response arrives, then the context is cancelled and doWait takes the ctx.Done() case: the channel is drained *)
+Example C38_ex_cancel_after_delivery :
+  match rrun rsys_init [RStep EConnect; RStep (ECall 7 1 false); RStep EWrite; RStep (ESrvRecv 7); RStep (ESrvReply 7 0);
+                        RStep (ECliRecv 7 (ROk 1))] with
+  | Some r => r_chan r = [7] /\
+              match rstep r (RReturnCtx 7 false false) with Some r' => r_chan r' = [] /\ r_ret r' = [7] | None => False end
+  | None => False
+  end.
+Proof. vm_compute. auto. Qed.
 
 (** Outside the property (the server breaks the protocol): a response that carries the query ID of a call which
     was not written yet makes finishCall decrement inFlight below zero -- the Go code panics
